@@ -18,7 +18,7 @@ package eigensystem
 
 /* -------------------------------------------------------------------------- */
 
-//import   "fmt"
+import   "fmt"
 import   "math"
 import   "sort"
 
@@ -214,6 +214,15 @@ func Run(a Matrix, args_ ...interface{}) (Vector, Matrix, error) {
   }
   if inSitu.Eigenvalues == nil {
     inSitu.Eigenvalues = NullDenseVector(t, n)
+  } else {
+    if inSitu.Eigenvalues.Dim() != n {
+      return nil, nil, fmt.Errorf("eigenvalues vector has invalid dimension (%d instead of %d)", inSitu.Eigenvalues.Dim(), n)
+    }
+  }
+  if inSitu.Eigenvectors != nil && computeEigenvectors {
+    if n1, m1 := inSitu.Eigenvectors.Dims(); n1 != n || m1 != n {
+      return nil, nil, fmt.Errorf("eigenvectors matrix has invalid dimension (%dx%d instead of %dx%d)", n1, m1, n, n)
+    }
   }
   if inSitu.Eigenvectors == nil && computeEigenvectors {
     inSitu.Eigenvectors = NullDenseMatrix(t, n, n)
